@@ -2,8 +2,10 @@
 executed in a fresh process by the `run` callable the driver passes in, so crashes and
 sanitizer aborts are candidates like any other."""
 import copy
+import time
 
 MAX_TESTS = 900
+MAX_SECONDS = 40.0
 
 
 def primary_rule(c, prop):
@@ -69,16 +71,23 @@ def drop_thread(trace, tid):
 
 
 class Budget:
-    def __init__(self, n):
+    def __init__(self, n, seconds):
         self.n = n
+        self.deadline = time.time() + seconds
+
+    def spent(self):
+        return self.n <= 0 or time.time() > self.deadline
 
 
-def minimise(run, trace, rule):
-    budget = Budget(MAX_TESTS)
+def minimise(run, trace, rule, seconds=MAX_SECONDS):
+    """Returns (minimised trace, result of its final replay), or (None, None) when the
+    failure does not replay. Bounded by a number of tests and by wall-clock time; when the
+    budget runs out the best trace found so far is returned."""
+    budget = Budget(MAX_TESTS, seconds)
     last = {}
 
     def bad(t):
-        if budget.n <= 0:
+        if budget.spent():
             return False
         budget.n -= 1
         if t.get("engine") == "Pair" and not t.get("extra"):
@@ -89,10 +98,12 @@ def minimise(run, trace, rule):
             return True
         return False
 
-    # the failure must replay (twice, to catch flakiness early)
+    # the failure must replay (a second attempt catches one-off flakiness)
     if not bad(trace):
+        budget.deadline = time.time() + seconds
         if not bad(trace):
             return None, None
+    budget.deadline = time.time() + seconds
     cur = trace
 
     # (1) drop whole threads
@@ -108,7 +119,7 @@ def minimise(run, trace, rule):
     for tid in range(len(cur["threads"])):
         n = len(cur["threads"][tid])
         chunk = max(1, n // 2)
-        while chunk >= 1 and budget.n > 0:
+        while chunk >= 1 and not budget.spent():
             i = 0
             progressed = False
             while i < len(cur["threads"][tid]):
@@ -182,7 +193,7 @@ def minimise(run, trace, rule):
         s = cur["schedule"]
         # truncate tail
         lo = 0
-        while len(cur["schedule"]) > 0 and budget.n > 0:
+        while len(cur["schedule"]) > 0 and not budget.spent():
             cand = copy.deepcopy(cur)
             cand["schedule"] = cand["schedule"][: len(cand["schedule"]) // 2]
             if bad(cand):
@@ -190,7 +201,7 @@ def minimise(run, trace, rule):
             else:
                 break
         i = 1
-        while i < len(cur["schedule"]) and budget.n > 0:
+        while i < len(cur["schedule"]) and not budget.spent():
             if cur["schedule"][i] != cur["schedule"][i - 1]:
                 cand = copy.deepcopy(cur)
                 cand["schedule"][i] = cand["schedule"][i - 1]
